@@ -188,5 +188,5 @@ const preludeSMT = `(set-option :produce-models true)
 (declare-fun shl (Int Int) Int)
 (declare-fun shr (Int Int) Int)
 (define-fun nilslice () Slice (mkslice nil 0 0 0))
-(define-fun wfslice ((s Slice)) Bool (and (<= 0 (soff s)) (<= 0 (slen s)) (<= (slen s) (scap s)) (<= (+ (soff s) (scap s)) 281474976710656) (=> (= (sarr s) nil) (= (scap s) 0))))
+(define-fun wfslice ((s Slice)) Bool (and (<= 0 (soff s)) (<= 0 (slen s)) (<= (slen s) (scap s)) (<= (+ (soff s) (scap s)) 1099511627776) (=> (= (sarr s) nil) (= (scap s) 0))))
 `
